@@ -37,6 +37,9 @@ Inv_C16 == Done =>
       [] kind = "bin"  -> C16_Bin_Failed(vin.x, vin.res, vin.start, out) = {}
       [] kind = "sel"  -> C16_Sel_Failed(vin.scores, vin.count, out) = {}
 
+Inv_BlurFast == (pc = "blur") => BlurFast(vin.v, vin.r) = BlurImpl(vin.v, vin.r)
+Inv_VecFun == (Done /\ kind = "vec") => out = VecFun(vin)
+
 ExportInv == (pc \in {"blur", "bin", "sel"} \/ (pc = "loop" /\ k = 1 /\ out = <<>> /\ ws = vin.start))
                 => PrintT("X" \o ToJson([kind |-> kind, vin |-> vin]))
 ExportStop == pc \in {"gen", "blur", "bin", "sel"} \/ (pc = "loop" /\ k = 1 /\ out = <<>> /\ ws = vin.start)
